@@ -43,7 +43,7 @@ def main():
     ap.add_argument("--keep", default=None)
     ap.add_argument("--tier", default="quick")
     a = ap.parse_args()
-    src = a.src or "/tmp/seed-%s-out" % a.pid
+    src = os.path.abspath(a.src or "/tmp/seed-%s-out" % a.pid)
     patch = os.path.join(src, "patch.diff")
     demo = [f for f in glob.glob(os.path.join(src, "demo_*.py"))][0]
     meta = json.load(open(os.path.join(src, "meta.json")))
